@@ -643,6 +643,57 @@ def unrolled(fn):
     return f
 
 
+def _finish_view(f, fn):
+    ast.fix_missing_locations(f)
+    for a in ("_qual", "_mod", "_cls", "_file", "_role"):
+        if hasattr(fn, a):
+            setattr(f, a, getattr(fn, a))
+    for n in ast.walk(f):
+        n._file = getattr(fn, "_file", None)
+        if not hasattr(n, "lineno"):
+            n.lineno = getattr(fn, "lineno", 0)
+        for c in ast.iter_child_nodes(n):
+            c._parent = n
+    f._parent = getattr(fn, "_parent", None)
+    return f
+
+
+def desummed(fn):
+    """on-demand view of fn with  x = sum(<iterable>)  /  x = sum(e for t in it [if c])  written as the loop it abbreviates
+    (x = 0; for t in it: [if c:] x += e), so rules about an accumulation see one form"""
+    f = clone(fn)
+
+    def rewrite(body):
+        out = []
+        for st in body:
+            for fld in ("body", "orelse", "finalbody"):
+                if isinstance(getattr(st, fld, None), list) and not isinstance(st, (ast.FunctionDef, ast.ClassDef)):
+                    setattr(st, fld, rewrite(getattr(st, fld)))
+            v = st.value if isinstance(st, ast.Assign) and len(st.targets) == 1 and isinstance(st.targets[0], ast.Name) else None
+            if isinstance(v, ast.Call) and isinstance(v.func, ast.Name) and v.func.id == "sum" and len(v.args) == 1 and \
+                    not v.keywords:
+                a, x = v.args[0], st.targets[0].id
+                if isinstance(a, (ast.GeneratorExp, ast.ListComp)) and len(a.generators) == 1 and not a.generators[0].is_async:
+                    g = a.generators[0]
+                    tgt, it, elt, ifs = g.target, g.iter, a.elt, g.ifs
+                else:
+                    tgt, it, elt, ifs = ast.Name(id="_item", ctx=ast.Store()), a, ast.Name(id="_item", ctx=ast.Load()), []
+                inc = ast.AugAssign(target=ast.Name(id=x, ctx=ast.Store()), op=ast.Add(), value=elt)
+                inner = [inc]
+                for c in reversed(ifs):
+                    inner = [ast.If(test=c, body=inner, orelse=[])]
+                loop = ast.For(target=tgt, iter=it, body=inner, orelse=[], type_comment=None)
+                zero = ast.Assign(targets=[ast.Name(id=x, ctx=ast.Store())], value=ast.Constant(value=0), type_comment=None)
+                for n_ in (zero, loop):
+                    ast.copy_location(n_, st)
+                out += [zero, loop]
+            else:
+                out.append(st)
+        return out
+    f.body = rewrite(f.body)
+    return _finish_view(f, fn)
+
+
 def renamed(fn, mapping):
     """view of fn with local names replaced (mapping old -> canonical role name); used by rules that identify a local by
     what it is defined as (its role) and are written against the names the package uses today"""
